@@ -43,6 +43,7 @@ type ccCase struct {
 	StallUs    []int    `json:"stall_us,omitempty"` // the harness holds the policy lock for these intervals while the programs run
 	Race       bool     `json:"race,omitempty"`     // C19: listener installed, Wait/SaveCache/Close/hybrid operations enabled
 	Hybrid     bool     `json:"hybrid,omitempty"`
+	ShortTTL   bool     `json:"short_ttl,omitempty"` // C16: SetWithTTL uses 1-3 ms and the programs nap, so Gets meet expired entries that are still resident
 }
 
 type ccRec struct {
@@ -253,6 +254,9 @@ func (r *ccRun) doOp(g int, op ccOp) {
 		r.recs[g] = append(r.recs[g], seen...)
 		r.rangeN.Add(1)
 		return
+	case "nap":
+		time.Sleep(time.Duration(op.TTL))
+		return
 	case "len":
 		r.s.Len()
 		return
@@ -452,59 +456,123 @@ func execConc(c ccCase, x *verifkit.Ctx, lin, counters bool) (fail *verifkit.Fai
 			}
 		}
 		r.s.Wait()
-		// views after the writes have drained
-		resident := map[int]int64{}
-		var cost int64
-		for _, sh := range r.s.shards {
-			tk := sh.mu.RLock()
-			for k, e := range sh.hashmap {
-				resident[k] = e.value
-				cost += e.weight.Load()
+		if c.ShortTTL {
+			time.Sleep(5 * time.Millisecond) // every 1-3 ms deadline has passed; the 1 h ones have not
+		}
+		// views after the writes have drained. With short TTLs the 1 s maintenance tick may reclaim
+		// expired entries while the views are taken: they are compared only if the shard maps were the
+		// same before and after (retried a few times otherwise).
+		type resEntry struct {
+			val     int64
+			expired bool
+		}
+		snapshot := func() (map[int]resEntry, int64) {
+			res := map[int]resEntry{}
+			var cost int64
+			now := r.s.timerwheel.clock.NowNano()
+			for _, sh := range r.s.shards {
+				tk := sh.mu.RLock()
+				for k, e := range sh.hashmap {
+					exp := e.expire.Load()
+					res[k] = resEntry{e.value, exp != 0 && exp <= now}
+					cost += e.weight.Load()
+				}
+				sh.mu.RUnlock(tk)
 			}
-			sh.mu.RUnlock(tk)
+			return res, cost
 		}
-		if l := r.s.Len(); l != len(resident) {
-			return verifkit.Failf("views/len", "Len %d != %d resident entries", l, len(resident))
-		}
-		seen := map[int]int{}
-		var bad *verifkit.Failure
-		r.s.Range(func(k int, v int64) bool {
-			seen[k]++
-			if want, ok := resident[k]; !ok || want != v {
-				bad = verifkit.Failf("views/range-value", "Range visited (%d, %#x) but the resident value is %#x (resident: %v)", k, v, want, ok)
+		same := func(a, b map[int]resEntry) bool {
+			if len(a) != len(b) {
+				return false
+			}
+			for k, v := range a {
+				if w, ok := b[k]; !ok || w.val != v.val {
+					return false
+				}
 			}
 			return true
-		})
-		if bad != nil {
-			return bad
 		}
-		for k, n := range seen {
-			if n != 1 {
-				return verifkit.Failf("views/range-duplicate", "Range visited key %d %d times", k, n)
+		views := func(resident map[int]resEntry, cost int64) *verifkit.Failure {
+			unexpired := 0
+			for _, e := range resident {
+				if !e.expired {
+					unexpired++
+				}
+			}
+			if l := r.s.Len(); l != len(resident) {
+				return verifkit.Failf("views/len", "Len %d != %d resident entries", l, len(resident))
+			}
+			seen := map[int]int{}
+			var bad *verifkit.Failure
+			r.s.Range(func(k int, v int64) bool {
+				seen[k]++
+				if want, ok := resident[k]; !ok || want.val != v || want.expired {
+					bad = verifkit.Failf("views/range-value", "Range visited (%d, %#x) but the resident value is %#x (resident: %v, expired: %v)", k, v, want.val, ok, want.expired)
+				}
+				return true
+			})
+			if bad != nil {
+				return bad
+			}
+			for k, n := range seen {
+				if n != 1 {
+					return verifkit.Failf("views/range-duplicate", "Range visited key %d %d times", k, n)
+				}
+			}
+			if len(seen) != unexpired {
+				return verifkit.Failf("views/range-missed", "Range visited %d keys, %d are resident and unexpired", len(seen), unexpired)
+			}
+			for _, j := range []int{1, 2, 5} {
+				n := 0
+				r.s.Range(func(k int, v int64) bool { n++; return n < j })
+				want := j
+				if unexpired < j {
+					want = unexpired
+				}
+				if n != want {
+					return verifkit.Failf("views/range-stop", "Range told to stop after %d pairs visited %d (resident and unexpired %d)", j, n, unexpired)
+				}
+			}
+			if !c.Pool {
+				if es := r.s.EstimatedSize(); int64(es) != cost {
+					return verifkit.Failf("views/estimated-size", "EstimatedSize %d != total cost %d of the resident entries", es, cost)
+				}
+				if cost > int64(c.MaxSize) {
+					return verifkit.Failf("views/over-capacity", "resident cost %d > MaxSize %d after Wait", cost, c.MaxSize)
+				}
+			}
+			return nil
+		}
+		for attempt := 0; ; attempt++ {
+			before, cost := snapshot()
+			f := views(before, cost)
+			after, _ := snapshot()
+			if same(before, after) {
+				if f != nil {
+					return f
+				}
+				break
+			}
+			// entries were reclaimed meanwhile
+			x.Class("views-retried(reclaim during the views)")
+			if !c.ShortTTL || attempt >= 5 {
+				if f != nil {
+					return f
+				}
+				return verifkit.Failf("views/unstable", "the shard maps kept changing after all calls returned and Wait (attempt %d)", attempt)
 			}
 		}
-		if len(seen) != len(resident) {
-			return verifkit.Failf("views/range-missed", "Range visited %d keys, %d are resident and unexpired", len(seen), len(resident))
-		}
-		for _, j := range []int{1, 2, 5} {
-			n := 0
-			r.s.Range(func(k int, v int64) bool { n++; return n < j })
-			want := j
-			if len(resident) < j {
-				want = len(resident)
-			}
-			if n != want {
-				return verifkit.Failf("views/range-stop", "Range told to stop after %d pairs visited %d (resident %d)", j, n, len(resident))
+		expiredResident := false
+		if c.ShortTTL {
+			res, _ := snapshot()
+			for _, e := range res {
+				if e.expired {
+					expiredResident = true
+				}
 			}
 		}
-		if !c.Pool {
-			if es := r.s.EstimatedSize(); int64(es) != cost {
-				return verifkit.Failf("views/estimated-size", "EstimatedSize %d != total cost %d of the resident entries", es, cost)
-			}
-			if cost > int64(c.MaxSize) {
-				return verifkit.Failf("views/over-capacity", "resident cost %d > MaxSize %d after Wait", cost, c.MaxSize)
-			}
-		}
+		x.ClassIf(c.ShortTTL, "short-ttl")
+		x.ClassIf(expiredResident, "views-with-expired-resident-entries")
 	}
 	nops := 0
 	for _, p := range c.Progs {
@@ -544,6 +612,7 @@ func genConc(forCounters bool) func(t *rapid.T) ccCase {
 		G := rapid.IntRange(2, 8).Draw(t, "goroutines")
 		if forCounters {
 			G = rapid.IntRange(1, 16).Draw(t, "goroutines")
+			c.ShortTTL = rapid.IntRange(0, 2).Draw(t, "shortTTL") == 0
 		}
 		maxOps := 80
 		if forCounters {
@@ -557,7 +626,7 @@ func genConc(forCounters bool) func(t *rapid.T) ccCase {
 				return ccOp{Op: "set", K: k, Pert: pert}
 			case op < 11:
 				ttl := int64(time.Hour)
-				if !forCounters && rapid.Bool().Draw(t, "short") {
+				if (!forCounters || c.ShortTTL) && rapid.Bool().Draw(t, "short") {
 					ttl = rapid.Int64Range(1, 3).Draw(t, "ms") * int64(time.Millisecond)
 				}
 				return ccOp{Op: "setttl", K: k, TTL: ttl, Pert: pert}
@@ -600,6 +669,17 @@ func genConc(forCounters bool) func(t *rapid.T) ccCase {
 		} else {
 			for g := 0; g < G; g++ {
 				c.Progs = append(c.Progs, rapid.SliceOfN(opGen, 10, maxOps).Draw(t, "prog"))
+			}
+		}
+		if c.ShortTTL {
+			// naps let the 1-3 ms deadlines pass while the entries are still resident (reclaimed on the 1 s tick)
+			for g := range c.Progs {
+				for n := rapid.IntRange(1, 3).Draw(t, "naps"); n > 0; n-- {
+					pos := rapid.IntRange(0, len(c.Progs[g])).Draw(t, "napPos")
+					p := append([]ccOp{}, c.Progs[g][:pos]...)
+					p = append(p, ccOp{Op: "nap", TTL: rapid.Int64Range(500, 4000).Draw(t, "napUs") * 1000})
+					c.Progs[g] = append(p, c.Progs[g][pos:]...)
+				}
 			}
 		}
 		c.StallUs = rapid.SliceOfN(rapid.SampledFrom([]int{0, 20, 200, 1000}), 0, 4).Draw(t, "stalls")
